@@ -86,6 +86,28 @@ def cpython_inlining_bug_shape(tree):
             if captured and (node[1] != "none" or any(
                     c is not t and any(sub[1] != "none" for sub, _ in scope.walk(c)) for c in node[2])):
                 return True
+    # third form (thorough tier, 3.12.1 and 3.13.0: the ORIGINAL reads a cell object or raises
+    # NameError): a comprehension binding the name nested INSIDE another comprehension (both are
+    # inlined into the function's frame), while a lambda/def/class anywhere else in that function
+    # captures the same name: `def f3(): [[(lambda: x)(), [x for x in [7]]] for t in [8]]`
+    def comps_below(n, depth):
+        for c in n[2]:
+            if c[0] == "comp":
+                yield c, depth + 1
+                for r in comps_below(c, depth + 1):
+                    yield r
+    for node, path in scope.walk(tree):
+        if node[0] == "comp":
+            continue
+        for t, depth in comps_below(node, 0):
+            if depth < 2 or t[1] not in ("target", "target_tuple"):
+                continue
+            inside_t = set(id(sub) for sub, _ in scope.walk(t))
+            for sub, _ in scope.walk(node):
+                if sub is node or id(sub) in inside_t or sub[0] == "comp":
+                    continue
+                if any(s2[1] != "none" for s2, _ in scope.walk(sub)):
+                    return True
     return False
 
 
